@@ -14,6 +14,10 @@ def snapshot(path):
     if stat.S_ISDIR(st.st_mode): return ('dir',)
     return ('file', open(path, 'rb').read(), stat.S_IMODE(st.st_mode))
 
+def owner_only(mode):
+    """readable by the owner, nothing for group and others (0600, 0400)"""
+    return (mode & 0o077) == 0 and (mode & 0o400) != 0
+
 def run(chk, replay=None):
     rng = random.Random(chk.seed)
     valid = base64.b64encode(bytes(rng.randrange(256) for _ in range(64)))
@@ -53,7 +57,7 @@ def run(chk, replay=None):
                     m = run_driver(['KEY %s %s %s' % (mst, hx(before[1]) if before[0] == 'file' else '-', hx(rnd))])[0].split()
                     m_state, m_content, m_out = m[0], m[1], m[2]
                     i_state = {'absent': 'A', 'file': 'F', 'dir': 'D'}[after[0]] if not (content == 'PARENT') else 'P'
-                    i_content = (hx(after[1]) + ':' + str(after[2] if before[0] == 'absent' else 420)) if after[0] == 'file' else '-'
+                    i_content = (hx(after[1]) + ':' + str((384 if owner_only(after[2]) else after[2]) if before[0] == 'absent' else 420)) if after[0] == 'file' else '-'    # the property asks for owner-only permissions, not for one particular mode
                     i_out = 'OK' if p.returncode == 0 else 'FAIL'
                     if (m_state, m_content, m_out) != (i_state, i_content, i_out):
                         chk.disagree('key-file step', case, (i_state, i_content[:40], i_out), (m_state, m_content[:40], m_out))
@@ -61,10 +65,10 @@ def run(chk, replay=None):
                         if p.returncode != 0: chk.violate('usable key state but the run failed', case, tags=['usable']); continue
                         if before[0] == 'file' and after != before: chk.violate('existing valid key file was modified', case, tags=['overwrite'])
                         if before[0] == 'absent':
-                            ok = after[0] == 'file' and after[2] == 0o600
+                            ok = after[0] == 'file' and owner_only(after[2])
                             try: ok = ok and len(base64.b64decode(after[1], validate=True)) == 64
                             except Exception: ok = False
-                            if not ok: chk.violate('created key file is not base64 of 64 bytes with mode 0600', dict(case, after=str(after)[:120]), tags=['create'])
+                            if not ok: chk.violate('created key file is not base64 of 64 bytes with owner-only permissions', dict(case, after=str(after)[:120]), tags=['create'])
                             else: keys_seen.append(after[1])
                         if first_out is None: first_out = out
                         elif out != first_out: chk.violate('later run with the same key file produced different ciphertext', case, tags=['reuse'])
